@@ -726,10 +726,10 @@ Section Job.
 
   Definition PROJ (w : world) : Prop :=
     (forall n, watched n = true -> reserved n = false) /\
-    (forall t c, watched t = false -> In c (do_candidates (updepth w) t) ->
+    (forall t c, watched t = false -> reserved t = false -> In c (do_candidates (updepth w) t) ->
        watched (cand_key (updepth w) c) = true /\ reserved (cand_key (updepth w) c) = false /\
        (rk (cand_key (updepth w) c) < rk t)%nat) /\
-    (forall t c fl, watched t = false -> In c (do_candidates (updepth w) t) ->
+    (forall t c fl, watched t = false -> reserved t = false -> In c (do_candidates (updepth w) t) ->
        fs_get (fs w) (cand_key (updepth w) c) = Some fl ->
        plain (script_of fl) /\
        forall d, In d (s_deps (script_of fl)) -> watched d = false /\ reserved d = false /\ (rk d < rk t)%nat).
@@ -745,7 +745,7 @@ Section Job.
   Lemma PROJ_wsame w w' : wsame w w' -> PROJ w -> PROJ w'.
   Proof.
     intros [Hu Hf] (P1 & P2 & P3). split; [exact P1|]. rewrite Hu. split; [exact P2|].
-    intros t c fl Ht Hc Hfl. destruct (P2 t c Ht Hc) as (W & _ & _). rewrite (Hf _ W) in Hfl. eapply P3; eauto.
+    intros t c fl Ht Hr Hc Hfl. destruct (P2 t c Ht Hr Hc) as (W & _ & _). rewrite (Hf _ W) in Hfl. eapply P3; eauto.
   Qed.
 
   (* ================================================================ what a job or a command does *)
@@ -905,7 +905,7 @@ Section Job.
 
   (* paths::find_do_file: a redo-ifcreate edge on every missing candidate, a redo-ifchange edge on the first existing one *)
   Lemma find_do_spec ex f t w0 :
-    ~ In f ex -> watched t = false -> PROJ w0 ->
+    ~ In f ex -> watched t = false -> reserved t = false -> PROJ w0 ->
     forall cands, (forall c, In c cands -> In c (do_candidates (updepth w0) t)) ->
     forall w (P : fid -> Prop), fs w = fs w0 -> updepth w = updepth w0 -> JINV w (f :: ex) -> nm w f = t ->
       GOODF w (f :: ex) f P ->
@@ -919,10 +919,10 @@ Section Job.
                     GOODF (set_db w d2) (f :: ex) f (fun x => P x \/ x = s)
       end.
   Proof.
-    intros Hf Hwt (P1 & P2 & P3).
+    intros Hf Hwt Hrt (P1 & P2 & P3).
     induction cands as [|c cs IH]; intros Hsub w P Hfs Hup Hj Hnm Hg d2 found H; cbn [find_do_file] in H.
     - injection H as <- <-. rewrite set_db_same. split; [apply jstep_refl; exact Hj|]. split; [apply extends_refl|exact Hg].
-    - destruct (P2 t c Hwt (Hsub c (or_introl eq_refl))) as (Wk & Rk & Lk).
+    - destruct (P2 t c Hwt Hrt (Hsub c (or_introl eq_refl))) as (Wk & Rk & Lk).
       set (dn := cand_key (updepth w0) c) in *.
       destruct (fs_get (fs w0) dn) as [fl|] eqn:Efs.
       + destruct (from_name (dbs w) dn) as [d1 s] eqn:Efn. injection H as <- <-.
@@ -1554,8 +1554,8 @@ Section Job.
     pose proof Ht as (Tw & Tr & Tk). pose proof Hp as (Pw & P2 & P3).
     assert (Hfin : In f (f :: ex)) by now left.
     pose proof Hj as (_ & _ & _ & Hu). destruct (Hu f Hfin) as [Vf _].
-    destruct (P2 t df Tw Hdf) as (Kw & Kr & Kk).
-    destruct (P3 t df fl Tw Hdf Hfl) as [Hplain Hdeps]. rewrite <- Hsc in Hplain, Hdeps.
+    destruct (P2 t df Tw Tr Hdf) as (Kw & Kr & Kk).
+    destruct (P3 t df fl Tw Tr Hdf Hfl) as [Hplain Hdeps]. rewrite <- Hsc in Hplain, Hdeps.
     unfold ss_run in H. rewrite HR in H. cbv zeta in H.
     (* $3 is unlinked *)
     set (w1 := remove_file w (tmp_of t)) in *.
@@ -1666,7 +1666,7 @@ Section Job.
       { intros d Hin Htg. left. exact (zap1_flags (dbs w) f d Hin Htg). }
       assert (Hnmz : nm wz f = t) by exact Hnm.
       destruct (find_do_file w (zap_deps1 (dbs w) f) f (do_candidates (updepth w) t)) as [d2 found] eqn:Efd.
-      destruct (find_do_spec ex f t w Hf Tw Hp (do_candidates (updepth w) t) (fun c Hc => Hc) wz (fun _ => False)
+      destruct (find_do_spec ex f t w Hf Tw Tr Hp (do_candidates (updepth w) t) (fun c Hc => Hc) wz (fun _ => False)
                              eq_refl eq_refl Jz Hnmz Hgz d2 found Efd) as (J2 & E2 & Hfound).
       change (set_db wz d2) with (set_db w d2) in *.
       set (w2 := set_db w d2) in *.
@@ -2081,3 +2081,143 @@ Section Job.
       split; [exact Js|]. intro Hrc. destruct (Hres Hrc (fun g Hg => match Hg with end)) as [_ Hall]. exact Hall.
   Qed.
 End Job.
+
+(* ================================================================ the whole command, and decidable premises *)
+Section Final.
+  Variable rk : name -> nat.
+  Variable watched : name -> bool.
+
+  (* `redo-ifchange ts` at top level: if it exits 0, every target in ts is
+     settled (with its whole recorded closure), and the run invariant holds *)
+  Theorem ifchange_settles k ts w w' evs :
+    let R := (maxrun (dbs w) + 1)%Z in
+    (0 < R)%Z -> JINV R rk watched (fst (new_run w)) [] -> PROJ rk watched (fst (new_run w)) ->
+    (forall t, In t ts -> watched t = false /\ reserved t = false) ->
+    exec (CIfChange k ts) w = (w', OutBuild evs 0%Z) ->
+    JINV R rk watched w' [] /\
+    forall t, In t ts -> exists g, find_row (rows (dbs w')) t 1 = Some g /\ ok R w' [] g.
+  Proof.
+    intros R Rpos Hj Hp Hts H. unfold exec in H. destruct (new_run w) as [w1 R'] eqn:En.
+    assert (HR : R' = R) by (unfold new_run in En; injection En as _ <-; reflexivity). subst R'. cbn [fst] in Hj, Hp.
+    set (e := {| e_runid := R; e_target := None; e_unlocked := false; e_no_oob := false; e_keep_going := k; e_cycles := [] |}) in *.
+    destruct (build (default_fuel w1) e MIfChange ts w1) as [[[w2 ev2] rc2]|] eqn:Eb; [|discriminate].
+    injection H as <- _ ->.
+    assert (Hpre : build_pre R rk watched e [] ts w1).
+    { split; [reflexivity|]. split; [exact Hj|]. split; [exact Hp|]. split.
+      - intros t Ht. destruct (Hts t Ht) as [A B]. split; [exact A|]. split; [exact B|]. intros x [].
+      - left. reflexivity. }
+    destruct (build_rec_spec R Rpos rk watched (default_fuel w1) e [] ts w1 w2 ev2 0%Z Hpre Eb) as (wa & _ & (_ & _ & J & _) & Hok).
+    split; [exact J|]. exact (Hok eq_refl).
+  Qed.
+
+  (* ---------------------------------------------------------------- decidable premises *)
+  Variable R : Z.
+
+  Definition xr_row_b (w : world) (g : fid) : bool :=
+    let r := get_row (dbs w) g in
+    match r_csum r with None => true | Some _ => false end
+    && match r_stamp r, r_changed r with Some _, None => false | _, _ => true end
+    && (is_alw w g || negb (reserved (nm w g)))
+    && match r_failed r with None => true | Some _ => negb (is_alw w g) end
+    && negb (r_ovr r)
+    && (negb (r_gen r) ||
+        match r_stamp r with
+        | Some s => stamp_eqb s (read_stamp w (nm w g)) || stamp_eqb (read_stamp w (nm w g)) SMissing
+        | None => false
+        end).
+  Definition xr_b (w : world) : bool := forallb (xr_row_b w) (seq 1 (length (rows (dbs w)))).
+  Definition cre_b (w : world) : bool :=
+    forallb (fun d => match d_mode d with DCreated => watched (nm w (d_source d)) | DModified => true end) (deps (dbs w)).
+
+  Lemma stamp_eqb_missing s : stamp_eqb s SMissing = true -> s = SMissing.
+  Proof. destruct s; [reflexivity|discriminate]. Qed.
+
+  Lemma xr_b_sound w : (0 < R)%Z -> fresh_run R w -> xr_b w = true -> XR R w [].
+  Proof.
+    intros Rpos Hfr H g Hg. unfold xr_b in H. rewrite forallb_forall in H.
+    assert (Hin : In g (seq 1 (length (rows (dbs w))))) by (apply in_seq; destruct Hg; lia).
+    specialize (H g Hin). unfold xr_row_b in H.
+    repeat match type of H with _ && _ = true => let A := fresh in apply andb_true_iff in H as [H A] end.
+    unfold rowx. split; [destruct (r_csum _); [discriminate|reflexivity]|]. split.
+    { intros Hs Hc. destruct (r_stamp (get_row (dbs w) g)); [|contradiction]. rewrite Hc in *. discriminate. }
+    split.
+    { intro Ha. rewrite Ha in *. cbn [orb] in *. match goal with X : negb (reserved _) = true |- _ => now apply negb_true_iff in X end. }
+    split.
+    { intro Hm. destruct (is_alw w g) eqn:Ea.
+      - destruct (r_failed (get_row (dbs w) g)); [discriminate|now left].
+      - rewrite (Hfr g Hg Ea) in Hm. discriminate. }
+    intros _. split; [match goal with X : negb (r_ovr _) = true |- _ => now apply negb_true_iff in X end|].
+    intro Hgen. match goal with X : negb (r_gen _) || _ = true |- _ => rewrite Hgen in X; cbn [negb orb] in X;
+      destruct (r_stamp (get_row (dbs w) g)) as [s0|]; [|discriminate]; exists s0; split; [reflexivity|];
+      apply orb_true_iff in X as [X|X]; [now left|right; now apply stamp_eqb_missing] end.
+  Qed.
+
+  Lemma cre_b_sound w : cre_b w = true -> CRE watched w.
+  Proof. intros H d Hin Hm. unfold cre_b in H. rewrite forallb_forall in H. specialize (H d Hin). now rewrite Hm in H. Qed.
+
+  Theorem jinv_fresh_b w :
+    (0 < R)%Z -> wfw_b R rk w = true -> fresh_b R w = true -> xr_b w = true -> cre_b w = true ->
+    JINV R rk watched w [].
+  Proof.
+    intros Rpos H1 H2 H3 H4. pose proof (fresh_b_sound R w Rpos H2) as Hfr.
+    split; [apply INV_fresh; [apply wfw_b_sound; exact H1|exact Hfr]|].
+    split; [apply xr_b_sound; assumption|]. split; [apply cre_b_sound; exact H4|]. intros x [].
+  Qed.
+
+  (* the project, for a finite list of possible target names *)
+  Definition plain_b (sc : script) : bool :=
+    negb (s_tol sc) && negb (s_always sc) && negb (s_stamp sc) && match s_ifcreate sc with [] => true | _ => false end.
+  Definition proj_t_b (w : world) (t : name) : bool :=
+    forallb (fun c =>
+      let k := cand_key (updepth w) c in
+      watched k && negb (reserved k) && Nat.ltb (rk k) (rk t)
+      && match fs_get (fs w) k with
+         | None => true
+         | Some fl => plain_b (script_of fl)
+                      && forallb (fun d => negb (watched d) && negb (reserved d) && Nat.ltb (rk d) (rk t)) (s_deps (script_of fl))
+         end) (do_candidates (updepth w) t).
+
+  Theorem proj_of_list w (L : list name) :
+    (forall n, watched n = true -> reserved n = false) ->
+    (forall t, watched t = false -> reserved t = false -> In t L) ->
+    forallb (proj_t_b w) L = true -> PROJ rk watched w.
+  Proof.
+    intros P1 HL H. rewrite forallb_forall in H. split; [exact P1|]. split.
+    - intros t c Hw Hr Hc. specialize (H t (HL t Hw Hr)). unfold proj_t_b in H. rewrite forallb_forall in H. specialize (H c Hc).
+      apply andb_true_iff in H as [H _]. apply andb_true_iff in H as [H A3]. apply andb_true_iff in H as [A1 A2].
+      split; [exact A1|]. split; [now apply negb_true_iff in A2|now apply Nat.ltb_lt in A3].
+    - intros t c fl Hw Hr Hc Hfl. specialize (H t (HL t Hw Hr)). unfold proj_t_b in H. rewrite forallb_forall in H. specialize (H c Hc).
+      apply andb_true_iff in H as [_ H]. rewrite Hfl in H. apply andb_true_iff in H as [Hp Hd].
+      split.
+      + unfold plain_b in Hp. destruct (s_ifcreate (script_of fl)) eqn:Ei; [|rewrite andb_false_r in Hp; discriminate].
+        rewrite andb_true_r in Hp. apply andb_true_iff in Hp as [Hp A3]. apply andb_true_iff in Hp as [A1 A2].
+        unfold plain. rewrite Ei. repeat split; now apply negb_true_iff.
+      + intros d Hd'. rewrite forallb_forall in Hd. specialize (Hd d Hd').
+        apply andb_true_iff in Hd as [Hd B3]. apply andb_true_iff in Hd as [B1 B2].
+        split; [now apply negb_true_iff in B1|]. split; [now apply negb_true_iff in B2|now apply Nat.ltb_lt in B3].
+  Qed.
+
+  (* everything together, premises boolean except the two facts about [watched] *)
+  Theorem ifchange_settles_b (L : list name) k ts w w' evs :
+    R = (maxrun (dbs w) + 1)%Z -> (0 < R)%Z ->
+    wfw_b R rk (fst (new_run w)) = true -> fresh_b R (fst (new_run w)) = true ->
+    xr_b (fst (new_run w)) = true -> cre_b (fst (new_run w)) = true ->
+    (forall n, watched n = true -> reserved n = false) ->
+    (forall t, watched t = false -> reserved t = false -> In t L) ->
+    forallb (proj_t_b (fst (new_run w))) L = true ->
+    forallb (fun t => negb (watched t) && negb (reserved t)) ts = true ->
+    exec (CIfChange k ts) w = (w', OutBuild evs 0%Z) ->
+    (forall t, In t ts -> exists g, find_row (rows (dbs w')) t 1 = Some g /\ ok R w' [] g) /\
+    QUIET R (rkf rk w') (ok R w' []) w'.
+  Proof.
+    intros HR Rpos H1 H2 H3 H4 P1 HL H5 H6 H.
+    assert (Hj : JINV R rk watched (fst (new_run w)) []) by (apply jinv_fresh_b; assumption).
+    assert (Hp : PROJ rk watched (fst (new_run w))) by (eapply proj_of_list; eauto).
+    assert (Hts : forall t, In t ts -> watched t = false /\ reserved t = false).
+    { intros t Ht. rewrite forallb_forall in H6. specialize (H6 t Ht). apply andb_true_iff in H6 as [A B].
+      split; now apply negb_true_iff. }
+    subst R.
+    destruct (ifchange_settles k ts w w' evs Rpos Hj Hp Hts H) as [J Hok].
+    split; [exact Hok|]. apply ok_quiet. destruct J as (((_ & He & _) & _) & _). exact He.
+  Qed.
+End Final.
